@@ -40,11 +40,14 @@ func (NopTaskStore) LoadSnapshot(string) (*kapacitor.TaskSnapshot, error) {
 
 type NopDeadman struct{}
 
-func (NopDeadman) Interval() time.Duration { return 0 }
+// the product's default deadman configuration (services/deadman/config.go)
+func (NopDeadman) Interval() time.Duration { return 10 * time.Second }
 func (NopDeadman) Threshold() float64      { return 0 }
-func (NopDeadman) Id() string              { return "" }
-func (NopDeadman) Message() string         { return "" }
-func (NopDeadman) Global() bool            { return false }
+func (NopDeadman) Id() string              { return "{{ .Group }}:NODE_NAME for task '{{ .TaskName }}'" }
+func (NopDeadman) Message() string {
+	return "{{ .ID }} is {{ if eq .Level \"OK\" }}alive{{ else }}dead{{ end }}: {{ index .Fields \"emitted\" | printf \"%0.3f\" }} points/INTERVAL."
+}
+func (NopDeadman) Global() bool { return false }
 
 // NopHTTPD satisfies the HTTPDService dependencies without opening a socket.
 type NopHTTPD struct{}
